@@ -309,7 +309,7 @@ fn parse_stats(s: &str) -> Vec<(u64, u64)> {
     out
 }
 
-pub const ITER_FLAVOURS: [&str; 7] = ["iter", "iter_mut", "keys", "values", "into_iter", "&into_iter", "&mut into_iter"];
+pub const ITER_FLAVOURS: [&str; 10] = ["iter", "iter_mut", "keys", "values", "into_iter", "&into_iter", "&mut into_iter", "iter with len()/is_empty() between the steps", "keys and values in lockstep", "iter with get() of other keys between the steps"];
 
 /// drive one iterator to its end, checking size_hint before every step and the behaviour after
 /// the end; returns the yielded items or a complaint
@@ -345,6 +345,41 @@ fn drain<I: Iterator>(mut it: I, expect: usize) -> Result<Vec<I::Item>, String> 
 
 pub type Pairs = Vec<(Option<Vec<u8>>, Option<Vec<u8>>)>;
 
+/// an iterator adaptor that runs a read-only call on the same map before every step
+struct Interleave<I: Iterator, F: FnMut()> {
+    it: I,
+    f: F,
+}
+impl<I: Iterator, F: FnMut()> Iterator for Interleave<I, F> {
+    type Item = I::Item;
+    fn next(&mut self) -> Option<I::Item> {
+        (self.f)();
+        self.it.next()
+    }
+    fn size_hint(&self) -> (usize, Option<usize>) {
+        self.it.size_hint()
+    }
+}
+
+/// two iterators over the same map advanced in lockstep (both must stay exact)
+struct Lockstep<A: Iterator, B: Iterator> {
+    a: A,
+    b: B,
+}
+impl<A: Iterator, B: Iterator> Iterator for Lockstep<A, B> {
+    type Item = (A::Item, B::Item);
+    fn next(&mut self) -> Option<Self::Item> {
+        match (self.a.next(), self.b.next()) {
+            (Some(x), Some(y)) => Some((x, y)),
+            _ => None,
+        }
+    }
+    fn size_hint(&self) -> (usize, Option<usize>) {
+        let (x, y) = (self.a.size_hint(), self.b.size_hint());
+        if x == y { x } else { (usize::MAX, None) }
+    }
+}
+
 /// run iterator flavour `f` on the map; items as (key?, value?)
 pub fn run_flavour<T: Kt>(m: &mut FileDbMap<T>, f: usize, expect: usize) -> Out<Result<Pairs, String>> {
     guard_plain(|| {
@@ -356,7 +391,31 @@ pub fn run_flavour<T: Kt>(m: &mut FileDbMap<T>, f: usize, expect: usize) -> Out<
             3 => drain(m.values(), expect).map(|v| v.into_iter().map(|x| (None, Some(x))).collect()),
             4 => drain(m.clone().into_iter(), expect).map(kv),
             5 => drain((&*m).into_iter(), expect).map(kv),
-            _ => drain((&mut *m).into_iter(), expect).map(kv),
+            6 => drain((&mut *m).into_iter(), expect).map(kv),
+            7 => {
+                // the map is not modified during the traversal, but other read-only calls happen
+                let m2 = m.clone();
+                let it = m.iter();
+                drain(Interleave { it, f: move || { let _ = m2.len(); let _ = m2.is_empty(); } }, expect).map(kv)
+            }
+            8 => {
+                let ks = m.keys();
+                let vs = m.values();
+                drain(Lockstep { a: ks, b: vs }, expect).map(|v| v.into_iter().map(|(k, v)| (Some(k.as_bytes().to_vec()), Some(v))).collect())
+            }
+            _ => {
+                let mut m2 = m.clone();
+                let probe: Vec<Vec<u8>> = m.keys().take(3).map(|k| k.as_bytes().to_vec()).collect();
+                let mut i = 0usize;
+                let it = m.iter();
+                drain(Interleave { it, f: move || {
+                    if !probe.is_empty() {
+                        let _ = m2.get(&probe[i % probe.len()][..]);
+                        let _ = m2.includes_key(&[0xEEu8, 0x01, (i % 251) as u8][..]);
+                        i += 1;
+                    }
+                } }, expect).map(kv)
+            }
         }
     })
 }
